@@ -686,4 +686,151 @@ Proof.
   match goal with |- coin_supply _ (<[?k := ?c]> ?m) <= _ => pose proof (coin_supply_insert_le (Custom h) k c m) as Hi end.
   unfold val in Hi. cbn [c_data cd_denom cd_value denom_eqb] in Hi. cbn [s_coins set_fees set_mult] in Hi |- *. lia.
 Qed.
+
+(* ---- ERG and every custom denomination over a whole seal.  MEL and SYM are the pegged pair: the peg and the
+   TIP-909 subsidy mint them by design, so they are excluded here (their conservation by a batch and by the
+   three settlement phases is proved above). *)
+Definition unpegged (d : denom) : Prop := d <> Mel /\ d <> Sym.
+
+(* reserves of d created by the one-off bootstrap of the built-in pools at this seal *)
+Definition bootstrap (d : denom) (s : wstate) : N := psum d (create_builtins s) - psum d s.
+
+Definition reserves_shrink (d : denom) (s s' : wstate) : Prop :=
+  forall k, In k K -> side d k (pool_at s' k) <= side d k (pool_at s k).
+
+Lemma reserves_shrink_psum d s s' : reserves_shrink d s s' -> psum d s' <= psum d s.
+Proof. intros H. unfold psum. apply nsum_le_pointwise. intros k Hk. apply H. exact Hk. Qed.
+
+Lemma builtin_key_of k : In k K -> In (poolkey_code k) builtin_codes -> k = MS \/ k = ME \/ k = ES.
+Proof.
+  intros Hk Hc. destruct K_builtins as (K1 & K2 & K3).
+  destruct Hc as [E|[E|[E|[]]]]; [left|right; left|right; right]; symmetry; eapply K_code_inj; eauto.
+Qed.
+
+Lemma MS_eq : MS = (Mel, Sym).
+Proof. vm_compute. reflexivity. Qed.
+Lemma side_MS_unpegged d p : unpegged d -> side d MS p = 0.
+Proof. intros [H1 H2]. unfold side. rewrite MS_eq. cbn [fst snd]. destruct d; try contradiction; cbn [denom_eqb]; lia. Qed.
+
+Lemma pegging_shrinks d s s' : unpegged d -> process_pegging s = Ok s' -> reserves_shrink d s s'.
+Proof.
+  intros Hd H k Hk. destruct builtin_code_cases as (B1 & _ & _).
+  unfold process_pegging in H. destruct (get_pool s (poolkey_new Mel Sym)) as [sm|] eqn:Esm; [|discriminate].
+  inv_bind H as x Hx. destruct x as [xn xd].
+  match type of H with (if ?c then _ else _) = _ => destruct c end; [discriminate|].
+  inv_bind H as sm1 H1. inv_bind H as sm2 H2. injection H as <-.
+  destruct (N.eq_dec (poolkey_code k) (poolkey_code MS)) as [E|E].
+  - assert (k = MS) by (destruct K_builtins as (K1 & _); eapply K_code_inj; eauto). subst k.
+    rewrite !side_MS_unpegged by exact Hd. lia.
+  - unfold pool_at, get_pool. cbn [s_pools put_pool set_pools]. rewrite lookup_insert_ne by (intros E2; apply E; rewrite <- E2; reflexivity). lia.
+Qed.
+
+Lemma swap_many_shrinks p l r p' lw rw :
+  swap_many p l r = Ok (p', lw, rw) -> (l = 0 -> p_lefts p' <= p_lefts p) /\ (r = 0 -> p_rights p' <= p_rights p).
+Proof.
+  unfold swap_many. destruct (_ =? 0); [discriminate|]. destruct (_ =? 0); [discriminate|].
+  destruct (_ <? _); [discriminate|]. destruct (_ <? _); [discriminate|]. destruct (_ =? 0); [discriminate|].
+  intros H. injection H as <- _ _. cbn [p_lefts p_rights].
+  split; intros ->; unfold sat_add128; rewrite N.add_0_r; lia.
+Qed.
+
+Lemma ES_eq : ES = (Erg, Sym).
+Proof. vm_compute. reflexivity. Qed.
+Lemma side_ES_unpegged d p : unpegged d -> side d ES p = if denom_eqb d Erg then p_lefts p else 0.
+Proof.
+  intros [H1 H2]. unfold side. rewrite ES_eq. cbn [fst snd].
+  destruct d; try contradiction; cbn [denom_eqb]; lia.
+Qed.
+
+Lemma tip909_shrinks d s s' : unpegged d -> apply_tip_909 s = Ok s' -> reserves_shrink d s s'.
+Proof.
+  intros Hd H k Hk. destruct builtin_code_cases as (B1 & _ & B3).
+  unfold apply_tip_909 in H. destruct (128 <=? _); [discriminate|].
+  destruct (get_pool s (poolkey_new Mel Sym)) as [sm|] eqn:Esm; [|discriminate].
+  inv_bind H as r Hr. destruct r as [[sm' mel] x]. inv_bind H as fp Hfp.
+  match type of H with context [get_pool ?st ?k0] => destruct (get_pool st k0) as [es|] eqn:Ees end; [|discriminate].
+  inv_bind H as r2 Hr2. injection H as <-. destruct r2 as [[es' a] b]. cbn [fst].
+  destruct (swap_many_shrinks _ _ _ _ _ _ Hr2) as [Hl _]. specialize (Hl eq_refl).
+  destruct (N.eq_dec (poolkey_code k) (poolkey_code MS)) as [E|E].
+  { assert (k = MS) by (destruct K_builtins as (K1 & _); eapply K_code_inj; eauto). subst k.
+    rewrite !side_MS_unpegged by exact Hd. lia. }
+  destruct (N.eq_dec (poolkey_code k) (poolkey_code ES)) as [E2|E2].
+  { assert (k = ES) by (destruct K_builtins as (_ & _ & K3); eapply K_code_inj; eauto). subst k.
+    rewrite !side_ES_unpegged by exact Hd. destruct (denom_eqb d Erg); [|lia].
+    change (poolkey_new Mel Sym) with MS in *. change (poolkey_new Erg Sym) with ES in *.
+    unfold get_pool in Ees. cbn [s_pools put_pool set_pools set_fees] in Ees.
+    rewrite lookup_insert_ne in Ees by (intros E3; apply E; symmetry; exact E3).
+    unfold pool_at, get_pool. cbn [s_pools put_pool set_pools set_fees]. rewrite lookup_insert, Ees. exact Hl. }
+  change (poolkey_new Mel Sym) with MS. change (poolkey_new Erg Sym) with ES.
+  unfold pool_at, get_pool. cbn [s_pools put_pool set_pools set_fees].
+  rewrite !lookup_insert_ne by (intros E3; first [apply E2; symmetry; exact E3|apply E; symmetry; exact E3]). lia.
+Qed.
+
+Theorem seal_settles_unpegged s a s' d :
+  unpegged d ->
+  seal SO s a = Ok s' ->
+  legacy_net s && (s_height s <? 978392) = false ->
+  (forall t k, In t (sorted_txs s) -> tx_pool t = Some k -> In k K /\ LDk k <> fst k /\ LDk k <> snd k) ->
+  NoDup (key_pairs (sorted_txs s)) ->
+  (forall t c, In t (sorted_txs s) -> s_coins s !! key0 t = Some c -> as_declared c (out0 t)) ->
+  (forall t c, In t (sorted_txs s) -> s_coins s !! key1 t = Some c -> as_declared c (out1 t)) ->
+  nsum (map (fun t => cd_value (out0 t)) (sorted_txs s)) < U128 ->
+  nsum (map (fun t => cd_value (out1 t)) (sorted_txs s)) < U128 ->
+  (forall s2 s3, process_swaps (create_builtins s) = Ok s2 -> process_deposits SO s2 = Ok s3 ->
+     (forall k p'' m, In k K ->
+        pool_deposit (pool_at s2 k)
+          (nsum (map (fun t => cd_value (out0 t)) (txs_for_pool (List.filter (is_deposit_request s2) (sorted_txs s2)) k)))
+          (nsum (map (fun t => cd_value (out1 t)) (txs_for_pool (List.filter (is_deposit_request s2) (sorted_txs s2)) k))) = Ok (p'', m) ->
+        p_liqs (pool_at s2 k) + m < U128) /\
+     (forall k p, In k K -> get_pool s3 k = Some p -> p_lefts p < U128 /\ p_rights p < U128)) ->
+  coin_supply d (s_coins s') + psum d s' + liq_of d s
+  <= coin_supply d (s_coins s) + psum d s + liq_of d s' + bootstrap d s.
+Proof.
+  intros Hd H Hleg Hcover Hkeys Hd0 Hd1 Hs0 Hs1 Hclamp.
+  unfold seal in H. inv_bind H as s5 H5. unfold preseal_melmint in H5.
+  inv_bind H5 as s2 H2. inv_bind H5 as s3 H3. inv_bind H5 as s4 H4.
+  destruct (negb (pool_count_ok s5)); [discriminate|]. inv_bind H as s6 H6.
+  set (s1 := create_builtins s) in *.
+  assert (F1: frame_fp s1 = frame_fp s) by apply frame_create_builtins.
+  assert (T1: sorted_txs s1 = sorted_txs s).
+  { apply txs_same. unfold frame_fp, frame in F1. injection F1 as _ _ _ E _ _ _ _ _. exact E. }
+  assert (C1: s_coins s1 = s_coins s) by apply coins_create_builtins.
+  assert (N1: s_network s1 = s_network s /\ s_height s1 = s_height s).
+  { unfold frame_fp, frame in F1. injection F1 as E1 E2 _ _ _ _ _ _ _. auto. }
+  destruct N1 as [En1 Eh1]. destruct (Hclamp s2 s3 H2 H3) as [Hsat Hbound].
+  (* bootstrap *)
+  destruct (create_builtins_only s) as [_ OL]. fold s1 in OL.
+  assert (L01: liq_of d s <= liq_of d s1).
+  { unfold liq_of. apply nsum_le_pointwise. intros k _. destruct (denom_eqb d (LDk k)); [apply OL|lia]. }
+  assert (P01: psum d s1 <= psum d s + bootstrap d s) by (unfold bootstrap; fold s1; lia).
+  (* settlement *)
+  assert (S14: settles d s1 s4).
+  { apply (settlement_settles s1 s2 s3 s4 H2 H3 H4); rewrite ?T1, ?C1; try assumption.
+    unfold legacy_net. rewrite En1, Eh1. exact Hleg. }
+  (* peg *)
+  pose proof (reserves_shrink_psum d s4 s5 (pegging_shrinks d s4 s5 Hd H5)) as P45.
+  destruct (process_pegging_only _ _ H5) as [_ OL45].
+  assert (L45: liq_of d s4 <= liq_of d s5).
+  { unfold liq_of. apply nsum_le_pointwise. intros k _. destruct (denom_eqb d (LDk k)); [apply OL45|lia]. }
+  pose proof (coins_process_pegging _ _ H5) as C45.
+  (* subsidy *)
+  assert (S56: coin_supply d (s_coins s6) = coin_supply d (s_coins s5) /\ psum d s6 <= psum d s5 /\ liq_of d s5 <= liq_of d s6).
+  { destruct (tip_909 s5); [|injection H6 as <-; repeat split; lia].
+    split; [rewrite (coins_tip909 _ _ H6); reflexivity|]. split; [apply reserves_shrink_psum, (tip909_shrinks d s5 s6 Hd H6)|].
+    destruct (tip909_only _ _ H6) as [_ OL56]. unfold liq_of. apply nsum_le_pointwise. intros k _.
+    destruct (denom_eqb d (LDk k)); [apply OL56|lia]. }
+  destruct S56 as (C56 & P56 & L56).
+  (* proposer reward: a MEL coin *)
+  assert (S6': coin_supply d (s_coins s') <= coin_supply d (s_coins s6) /\ psum d s' = psum d s6 /\ liq_of d s' = liq_of d s6).
+  { destruct a as [act|]; [|injection H as <-; repeat split; lia].
+    unfold collect_proposer_fee in H. inv_bind H as v Hv. injection H as <-.
+    split; [|split; [apply psum_same; reflexivity|apply liq_of_same; reflexivity]].
+    rewrite coins_put_coin_eq.
+    match goal with |- coin_supply _ (<[?k0 := ?c]> ?m) <= _ => pose proof (coin_supply_insert_le d k0 c m) as Hi end.
+    unfold val in Hi. cbn [c_data cd_denom cd_value] in Hi.
+    assert (E: denom_eqb Mel d = false) by (destruct Hd as [Hm _]; destruct d; try reflexivity; contradiction).
+    rewrite E in Hi. cbn [s_coins set_fees set_mult] in Hi |- *. lia. }
+  destruct S6' as (C6 & P6 & L6).
+  unfold settles in S14. rewrite C45 in *. rewrite C1 in S14. lia.
+Qed.
 End Lift.
